@@ -476,6 +476,9 @@ def campaign_stack(ck: Check, n_cases: int, at_default_limit: bool) -> None:
     camp = ck.campaign("Model.Sort.sortDataModelsS (escape hatch) vs sort_data_models on a nearly exhausted interpreter stack: deep chains / DAGs / trees")
     t0 = time.time()
     rng = ck.rng.fork("stack")
+    # the budget the code starts with is the interpreter's limit at import time; the theorems need nothing else about it
+    if default_rc() != sys.getrecursionlimit():
+        ck.disagree(camp, {"what": "MAX_RECURSION_COUNT"}, f"sys.getrecursionlimit() = {sys.getrecursionlimit()}", default_rc())
     cases = []
     for g, rc, extra in STACK_CORPUS:
         cases.append((g, rc, extra, "stub"))
